@@ -53,6 +53,7 @@ PROP = [  # (substring of the subject, property, what failed)
     ("continue to an outer label of a label set", "C08", "`a: b: do { if (++n>300) break; continue a; } while(true)` with loop limit 3 ran 301 bodies: the jump skipped the condition and IncrementLoopIteration (also a C01 deviation: do-while condition skipped, for initializer re-run)"),
     ("iterator-consuming builtins were not subject to the loop-iteration limit", "C08", "`[...it]`, `Array.from(it)`, `new Set(it)`, `var [...r]=it`, `Promise.all(it)` over an endless user iterator were never stopped by the loop-iteration limit"),
     ("cached super.x = v wrote into the super object", "C06", "`H={m(v){super.p0=v}}` with super = A: after `m.call(A,5); m.call(A,6)` a warm site made `m.call(r,7)` write into A instead of defining r.p0"),
+    ("AST printer dropped the sign of a negative infinite literal", "C05", "after the C19 numbers repair every infinite literal printed as 1e999: the optimized AST of `print(-1 / 0)` printed as `print(1e999)` (found by C05's rewrite-text correspondence in the thorough tier)"),
     ("AST printer", "C19", None),
     ("Map/Set clear() under a live iterator", "C20", "`m.clear(); m.set(4,4); it.next()` on a running iterator reported done (spec/V8: 4) — deterministic deviation found by the C20 model refinement"),
     ("for_each_native looped forever", "C20", "JsMap/JsSet::for_each_native hung on a Map that had a deletion while an iterator was alive"),
